@@ -79,6 +79,8 @@ def attribute(rn, prog, ref, fails):
     keys = []
     cur = prog
     left = dict(fails)
+    if "raw" in prog:
+        return ["%s: hand-written program" % level_name(left)]
 
     def rerun(p, levels):
         out = {}
@@ -207,7 +209,10 @@ def main():
         "harness/go/cmd/constx prints the ConstFuncParamMeta the real annotator attaches (compared with the model's `analyse` for every program of the model's fragment)",
         "attribution of a failure to a listed defect uses value-neutral rewrites (deelide: write every non-primitive value parameter once; detemp: assign temporaries) and the aliasing facts observed by the reference interpreter",
     ]
+    import time as _t
+    T0 = _t.time()
     ck.coq()
+    log("[c08] coq %.0fs" % (_t.time() - T0))
     ok, lg = b.ensure_native()
     if not ok:
         ck.violation("build", "kddp/runtime do not build from the current tree", dict(log=lg[-3000:]), no_input=True)
@@ -228,10 +233,23 @@ def main():
                 log("[corpus] unreadable %s: %s" % (fn, ex))
     ncorpus = len(progs)
     reps = 1 if ck.quick else 4
+    progs += c08gen.raw_programs()
     for _ in range(reps):
-        progs += c08gen.matrix(rng)
-        progs += c08gen.shape_programs(rng)
-    nrand = 40 if ck.quick else 3900
+        # quick: a seed-chosen sample: 40 matrix cells (one holder each) and 46 aliasing shapes (at least one program of
+        # every shape); thorough: every cell with both holders and every shape program, four value sets
+        mx = c08gen.matrix(rng, one_holder=ck.quick)
+        sh = c08gen.shape_programs(rng)
+        if ck.quick:
+            rng.shuffle(mx)
+            mx = mx[:40]
+            rng.shuffle(sh)
+            first, rest, seen_shapes = [], [], set()
+            for it in sh:
+                (first if it[0]["shape"] not in seen_shapes else rest).append(it)
+                seen_shapes.add(it[0]["shape"])
+            sh = first + rest[:max(0, 46 - len(first))]
+        progs += mx + sh
+    nrand = 16 if ck.quick else 3900
     g_all = c08gen.RandGen(rng)
     g_mod = c08gen.RandGen(rng, True)
     dropped = dict(fuel=0, ub_quota=0)
@@ -246,13 +264,14 @@ def main():
             continue
         if r[2] & {"D"}:
             # the all-level dangling-part-reference defect has dedicated shape programs; keep only a few random ones
-            if ub_kept >= (4 if ck.quick else 40):
+            if ub_kept >= (2 if ck.quick else 40):
                 dropped["ub_quota"] += 1
                 continue
             ub_kept += 1
         progs.append((dict(kind="random", model_only=bool(made % 2), n=made), p))
         made += 1
-    opts = [0, 1, 2]
+    # -O 1 = -O 0 plus the LLVM passes (C11's subject); quick compares -O 0 with -O 2 only
+    opts = [0, 2] if ck.quick else [0, 1, 2]
     if os.environ.get("VERIF_C08_STRIDE"):   # development aid only: a slice of the programs
         k = int(os.environ["VERIF_C08_STRIDE"])
         progs = progs[:ncorpus] + progs[ncorpus::k]
@@ -310,6 +329,7 @@ def main():
                     os.remove(f)
                 except OSError:
                     pass
+    log("[c08] generation+model+constx done at %.0fs" % (_t.time() - T0))
     # ---- run
     jobs = [(i, o) for i in range(len(items)) for o in opts]
 
@@ -321,10 +341,11 @@ def main():
             return ("harness", "", repr(ex))
     results = vlib.pmap(job, jobs)
     ck.count(len(jobs))
+    log("[c08] %d runs done at %.0fs" % (len(jobs), _t.time() - T0))
     by_prog = {}
     for (i, o), obs in zip(jobs, results):
         by_prog.setdefault(i, {})[o] = obs
-    dist = dict(matrix=0, shape=0, random=0, corpus=0)
+    dist = dict(matrix=0, shape=0, random=0, corpus=0, raw=0)
     stats = dict(expected_ok=0, expected_err=0, model_programs=0, model_elide_differs=0, model_elide_differs_confirmed=0, failing_programs=0)
     model_bad = []
     seen_keys = {}
@@ -387,7 +408,7 @@ def main():
                       aliasing_facts=sorted(ref[2]), explained_by=keys, how="kddp kompiliere prog.ddp -o prog.o -O %d; link; ./prog" % o, program=p)
         for key in keys:
             is_new = ck.violation(key, "expected %r, -O %d executable gave %r" % (ref[:2], o, fails[o][:2]), replay)
-            if is_new and key not in seen_keys and meta["kind"] != "corpus":
+            if is_new and key not in seen_keys and meta["kind"] not in ("corpus", "raw"):
                 # unknown violation: shrink and persist
                 small = shrink(rn, p, key)
                 replay = dict(replay, source=c08gen.render(small), program=small, expected=list(c08gen.reference(small)[:2]))
@@ -401,9 +422,11 @@ def main():
                 if not os.path.exists(cf) and meta["kind"] in ("shape", "matrix"):
                     json.dump(dict(key=key, program=p, source=c08gen.render(p), expected=ref[:2]), open(cf, "w"), ensure_ascii=False, indent=1)
             seen_keys[key] += 1
+    log("[c08] triage done at %.0fs" % (_t.time() - T0))
     # ---- ASan flavour on a sample: the aliasing shapes and a slice of the rest, at -O 0 and -O 2
-    sample = [i for i, it in enumerate(items) if it[0]["kind"] == "shape"][: (24 if ck.quick else 200)]
-    sample += [i for i, it in enumerate(items) if it[0]["kind"] != "shape"][:: (40 if ck.quick else 12)]
+    sample = [i for i, it in enumerate(items) if it[0]["kind"] == "raw"]
+    sample += [i for i, it in enumerate(items) if it[0]["kind"] == "shape"][:: (6 if ck.quick else 1)][: (8 if ck.quick else 250)]
+    sample += [i for i, it in enumerate(items) if it[0]["kind"] not in ("shape", "raw")][:: (30 if ck.quick else 12)]
     ajobs = [(i, o) for i in sample for o in ((2,) if ck.quick else (0, 2))]
 
     def ajob(io):
@@ -414,6 +437,7 @@ def main():
             return ("harness", "", repr(ex))
     ares = vlib.pmap(ajob, ajobs)
     ck.count(len(ajobs))
+    log("[c08] %d ASan runs done at %.0fs" % (len(ajobs), _t.time() - T0))
     n_asan = 0
     for (i, o), a in zip(ajobs, ares):
         meta, p, ref, _ = items[i]
